@@ -11,6 +11,7 @@ import (
 	_ "verif/h/c08"
 	_ "verif/h/c09"
 	_ "verif/h/c10"
+	_ "verif/h/c11"
 	_ "verif/h/c12"
 	_ "verif/h/c13"
 	_ "verif/h/c14"
